@@ -61,6 +61,9 @@ type Config struct {
 	MaxSteps    int   // step horizon (default 400000)
 	IdleHorizon int64 // virtual ns without Progress() while a root is running => stall (0 = off)
 	TimerFirst  bool  // offer "fire earliest timer now" as a cost-1 alternative at scheduling points
+	// TimerFirstWindow: only timers due within this much virtual time are offered as the
+	// "fire now" deviation (default 5 s): runnable threads may be late, not absent for minutes.
+	TimerFirstWindow int64
 	// Demote adds the deviation "demote the running thread" (see schedule).
 	Demote bool
 	// LowThreads honours threads started with GoLow (they run only when nothing else can, or
@@ -326,6 +329,13 @@ func (x *Exec) enabled(t *Thread) bool {
 	return t.pred == nil || t.pred()
 }
 
+func (c Config) timerFirstWindow() int64 {
+	if c.TimerFirstWindow > 0 {
+		return c.TimerFirstWindow
+	}
+	return 5_000_000_000
+}
+
 // timerWithin reports whether a live timer is due within d of the current clock (d<=0: any).
 func (x *Exec) timerWithin(d int64) bool {
 	for _, tm := range x.timers {
@@ -406,9 +416,9 @@ func (x *Exec) schedule(self *Thread, selfDone bool, label string) {
 			x.park(self)
 		}
 		// "fire the earliest timer now" stands for the runnable threads being a little late, not
-		// for all of them standing still beyond the idle horizon: a timer that far away is not
-		// offered while something can run (it fires when nothing else can).
-		timerOpt := x.cfg.TimerFirst && x.timerWithin(x.cfg.IdleHorizon)
+		// for all of them standing still for minutes: a timer further away than the window is
+		// not offered while something can run (it fires when nothing else can).
+		timerOpt := x.cfg.TimerFirst && x.timerWithin(x.cfg.timerFirstWindow())
 		// "demote the running thread": from here on it runs only when nothing else can, until a
 		// later deviation picks it explicitly. One such deviation keeps a thread out of the way
 		// across any number of blocking operations of the others - the plain delay only skips it once.
